@@ -104,7 +104,22 @@ func drawLeaf(t *rt.Tape, bits int) circuit.IOArg {
 		bits = 1 + t.Choose(rt.SGen, 24)
 	}
 	var ts string
-	switch t.Choose(rt.SGen, 5) {
+	switch t.Choose(rt.SGen, 6) {
+	case 5:
+		// an array of arrays (of arrays) whose total size is bits
+		ts = fmt.Sprintf("uint%d", bits)
+		for _, el := range []int{8, 4, 2, 1} {
+			if bits%(2*el) == 0 {
+				n := bits / el
+				switch {
+				case n%6 == 0 && t.Choose(rt.SGen, 2) == 0:
+					ts = fmt.Sprintf("[%d][3][2]uint%d", n/6, el)
+				case n%2 == 0:
+					ts = fmt.Sprintf("[%d][2]uint%d", n/2, el)
+				}
+				break
+			}
+		}
 	case 0:
 		ts = fmt.Sprintf("int%d", bits)
 	case 1:
